@@ -17,7 +17,8 @@ ID = "C06"
 LEVEL = "exploration"
 RULE = (
     "cases are CSV files written by csv.writer from generated records (0-12 records of 0-6 cells of "
-    "arbitrary unicode except CR/surrogates, blank records anywhere, 4 delimiters x 2 quote chars); "
+    "arbitrary unicode except CR/surrogates, blank records anywhere, 4 delimiters x 2 quote chars, LF or CRLF "
+    "line terminator, minimal or full quoting, with or without a final newline); "
     "non-trivial = some cell contains the delimiter, the quote char, a newline or a non-ASCII "
     "character, or some row's length differs from the header's; distinct = distinct file+dialect"
 )
@@ -56,15 +57,19 @@ def _case(draw):
     quote = draw(st.sampled_from(QUOTES))
     named = draw(st.booleans())
     cell = _cell(delim, quote)
+    # how csv.writer was set up: its default line terminator is CRLF; QUOTE_ALL; a last record without newline
+    dialect = {"lineterminator": draw(st.sampled_from(["\n", "\n", "\r\n"])),
+               "quote_all": draw(st.sampled_from([False, False, True])),
+               "final_newline": draw(st.sampled_from([True, True, False]))}
     if not named:
         records = draw(st.lists(st.lists(cell, max_size=6), max_size=12))
-        return {"records": records, "delimiter": delim, "quotechar": quote, "names": None}
+        return {"records": records, "delimiter": delim, "quotechar": quote, "names": None, "dialect": dialect}
     k = draw(st.integers(1, 5))
     names = draw(st.lists(st.sampled_from(NAME_POOL), min_size=k, max_size=k, unique=True))
     lead = draw(st.integers(0, 2))
     rows = draw(st.lists(st.lists(cell, max_size=k + 2), max_size=10))
     records = [[] for _ in range(lead)] + [list(names)] + rows
-    return {"records": records, "delimiter": delim, "quotechar": quote, "names": names}
+    return {"records": records, "delimiter": delim, "quotechar": quote, "names": names, "dialect": dialect}
 
 
 def strategy(tier):
@@ -74,6 +79,11 @@ def strategy(tier):
 def _written_reads_back(sb, rel, records, d, q):
     with open(rel, "r", encoding="utf-8", newline="") as f:
         back = list(csv.reader(f, delimiter=d, quotechar=q))
+    if back == records:
+        return True
+    # without a final newline trailing blank records are not in the file at all
+    while records and back != records and len(records[-1]) == 0:
+        records = records[:-1]
     return back == records
 
 
@@ -87,14 +97,21 @@ def clean_header(h):
 def run_case(case, sb):
     records = [list(r) for r in case["records"]]
     d, q, names = case["delimiter"], case["quotechar"], case["names"]
+    dia = case.get("dialect") or {}
     try:
-        rel = sb.write_csv("f.csv", records, delimiter=d, quotechar=q)
+        rel = sb.write_csv("f.csv", records, delimiter=d, quotechar=q, **dia)
         if not _written_reads_back(sb, rel, records, d, q):
             return core.outcome(undefined=True, labels=["csv-module-cannot-round-trip"])
     except (csv.Error, UnicodeEncodeError):
         return core.outcome(undefined=True, labels=["csv-module-cannot-write"])
     nonblank = [r for r in records if len(r) > 0]
     labels = ["named" if names else "arbitrary", f"delim:{d!r}", f"quote:{q}"]
+    if dia.get("lineterminator") == "\r\n":
+        labels.append("crlf")
+    if dia.get("quote_all"):
+        labels.append("quote-all")
+    if dia.get("final_newline") is False:
+        labels.append("no-final-newline")
     hdr = nonblank[0] if nonblank else []
     flat = [c for r in records for c in r]
     special = any((d in c) or (q in c) or ("\n" in c) or any(ord(ch) > 127 for ch in c) for c in flat)
